@@ -54,6 +54,9 @@ def _case(rng, farmer=None, sow_constants=False):
         c['engine'] = rng.choice(['pickle', 'csv'])
         c['initial'] = rng.choice(['none', 'some'])
     if sow_constants: c['sow_constants'] = {'kk': 5}
+    elif rng.random() < 0.2:
+        # constants given at the sow call: new ones and ones that override the runner's own
+        c['sow_constants'] = rng.choice([{'kk': 5}, {'k0': 99}, {'kk': 'z', 'k0': 1.5}])
     return c
 
 
@@ -73,6 +76,13 @@ KNOWN_WITNESS = None
 def setup(ctx):
     ctx.logfile = os.path.join(common.scratch_root(), 'calllog-c06.jsonl')
     os.environ[fns.LOG_ENV] = ctx.logfile
+
+
+def _eff_desc(c):
+    """the description a direct run with the same inputs has: constants given at the sow call count like the runner's own"""
+    if not c.get('sow_constants'): return c['desc']
+    d = dict(c['desc']); d['constants'] = {**c['desc']['constants'], **c['sow_constants']}
+    return d
 
 
 def _mk_farmer(xyz, c, f, data, tag=''):
@@ -155,7 +165,7 @@ def run_real(c, ctx):
                 outcome = {}
                 try: res = crop.reap(**opts)
                 except Exception as e: outcome['crop'] = type(e).__name__
-                try: farmer2.harvest_combos(combos_sorted, verbosity=0, **opts)
+                try: farmer2.harvest_combos(combos_sorted, verbosity=0, **opts, **({'constants': c['sow_constants']} if c.get('sow_constants') else {}))
                 except Exception as e: outcome['direct'] = type(e).__name__
                 if outcome:
                     return {'conflict': outcome, 'store': labelled.canon_ds(xyz.load_ds(data_crop, engine=c['engine'])),
@@ -172,11 +182,11 @@ def run_real(c, ctx):
                 else: direct = runner2.run_combos(combos_sorted, to_df=c['to_df'], verbosity=0, **dkw) if c['to_df'] else runner2.run_combos(combos_sorted, verbosity=0, **dkw)
             elif c['farmer'] == 'harvester':
                 if c.get('_conflict_done'): pass
-                elif c['cases']: farmer2.harvest_cases(cases_t, verbosity=0, **opts)
-                else: farmer2.harvest_combos(combos_sorted, verbosity=0, **opts)
+                elif c['cases']: farmer2.harvest_cases(cases_t, verbosity=0, **opts, **dkw)
+                else: farmer2.harvest_combos(combos_sorted, verbosity=0, **opts, **dkw)
                 direct = farmer2.last_ds
             else:
-                direct = runner2.run_cases(cases_t, fn_args=sw['case_args'], to_df=True, verbosity=0)
+                direct = runner2.run_cases(cases_t, fn_args=sw['case_args'], to_df=True, verbosity=0, **dkw)
                 farmer2.add_df(direct)
         cn = labelled.canon_df if c['to_df'] else labelled.canon_ds
         obs = {'res': cn(res), 'direct': cn(direct)}
@@ -197,8 +207,8 @@ def run_real(c, ctx):
             obs['store_direct'] = labelled.canon_df(xyz.load_df(data_direct, engine=c['engine']))
             obs['mem'] = labelled.canon_df(fm.full_df)
         obs['dir_left'] = os.path.exists(os.path.join(d, '.xyz-t'))
-        obs['oracle'] = (labelled.oracle_df(obs['res'], sw, desc, sweeps.n_settings(sw)) if c['to_df']
-                         else labelled.oracle_ds(res, sw, desc))
+        obs['oracle'] = (labelled.oracle_df(obs['res'], sw, _eff_desc(c), sweeps.n_settings(sw)) if c['to_df']
+                         else labelled.oracle_ds(res, sw, _eff_desc(c)))
         return obs
     except Exception as e:
         import traceback
@@ -218,7 +228,7 @@ def model_request(c, obs):
     ids = list(range(1, c['B'] + 1)); random.Random(c['seed']).shuffle(ids)
     ops += [{'op': 'grow', 'ids': ids[:len(ids) // 2] or ids}, {'op': 'growmissing'}]
     if 'after_grow' in c['reload']: ops.append({'op': 'reload'})
-    ops.append({'op': 'reapds', 'desc': labelled.model_desc(c['desc']), 'to_df': c['to_df']})
+    ops.append({'op': 'reapds', 'desc': labelled.model_desc(_eff_desc(c)), 'to_df': c['to_df']})
     h = {'sweep': sw, 'kind': labelled.kind_of(c['desc']), 'ops': ops}
     rq = crops.history_request(h)
     rq['outputs'] = len(c['desc']['names'])
@@ -231,9 +241,9 @@ def compare(c, obs, rep):
     sw = crops.sorted_sweep(c['sweep'])
     if 'err' in last: return f'model reap failed: {last}'
     if c['to_df']:
-        exp = labelled.expected_df(last, sw, c['desc'])
+        exp = labelled.expected_df(last, sw, _eff_desc(c))
         return None if obs['res'] == exp else f'reaped rows differ from the model: {json.dumps(obs["res"])[:300]} vs {json.dumps(exp)[:300]}'
-    return labelled.diff_ds(obs['res'], labelled.expected_ds(last['ds'], sw, c['desc']))
+    return labelled.diff_ds(obs['res'], labelled.expected_ds(last['ds'], sw, _eff_desc(c)))
 
 
 def oracle(c, obs):
@@ -271,4 +281,4 @@ def oracle(c, obs):
 
 
 def finding_key(c, obs):
-    return 'D16-sow-time-constants' if c.get('sow_constants') else None
+    return None          # D16 (sow-time constants) is repaired: nothing is masked any more
